@@ -7,6 +7,7 @@ import (
 	"fmt"
 	"math"
 	"math/rand"
+	"time"
 
 	"github.com/gogo/protobuf/proto"
 	pb "github.com/ipfs/boxo/ipld/unixfs/pb"
@@ -639,7 +640,8 @@ type BOptCase struct {
 
 func runBOptCase(bc *BOptCase, tr *Tr) error {
 	tr.Emit(M{"ev": "reset", "case": caseString(bc)})
-	ev := M{"ev": "bopt", "opts": bc.Opts, "out": "ok", "type": -1, "mode": -1, "nbs": -1, "panic": false}
+	ev := M{"ev": "bopt", "opts": bc.Opts, "out": "ok", "type": -1, "mode": -1, "nbs": -1, "panic": false,
+		"msec": -1, "mnano": -1, "fsize": -1, "hash": -1, "fanout": -1, "hasdata": false}
 	var n data.UnixFSData
 	var err error
 	pm := guard(func() {
@@ -668,6 +670,8 @@ func runBOptCase(bc *BOptCase, tr *Tr) error {
 							builder.FractionalNanoseconds(tb, int32(o.V))
 						}
 					})
+				case "mtimet":
+					builder.Mtime(b, func(tb builder.TimeBuilder) { builder.Time(tb, time.Unix(5, o.V)) })
 				case "bs":
 					builder.BlockSizes(b, make([]uint64, o.V))
 				case "data":
@@ -693,6 +697,23 @@ func runBOptCase(bc *BOptCase, tr *Tr) error {
 			ev["mode"] = n.FieldMode().Must().Int()
 		}
 		ev["nbs"] = n.FieldBlockSizes().Length()
+		if n.FieldMtime().Exists() {
+			mt := n.FieldMtime().Must()
+			ev["msec"] = mt.FieldSeconds().Int()
+			if mt.FieldFractionalNanoseconds().Exists() {
+				ev["mnano"] = mt.FieldFractionalNanoseconds().Must().Int()
+			}
+		}
+		if n.FieldFileSize().Exists() {
+			ev["fsize"] = n.FieldFileSize().Must().Int()
+		}
+		if n.FieldHashType().Exists() {
+			ev["hash"] = n.FieldHashType().Must().Int()
+		}
+		if n.FieldFanout().Exists() {
+			ev["fanout"] = n.FieldFanout().Must().Int()
+		}
+		ev["hasdata"] = n.FieldData().Exists()
 	}
 	tr.Emit(ev)
 	return nil
